@@ -2,12 +2,18 @@
 # usage: tools/seedcheck.sh <PROP> <patch file> <demo file> [worktree]
 # Confirms an independently written breaking change in a scratch worktree of /repo (never in /repo itself):
 #   clean: demo passes;  patched: demo fails, baseline tests pass, the property's quick check reports a VIOLATION.
-P=$1; PATCH=$2; DEMO=$3; WT=${4:-/tmp/wt_$P}
+P=$1; PATCH=$2; DEMO=$3; WT=${4:-}
 set -u
+if [[ -z "$WT" || ! -d "$WT" ]]; then
+  # a scratch worktree of /repo outside /repo and /verif, removed when done
+  WT=$(mktemp -d /tmp/pbseedcheck.XXXXXX)
+  git -C /repo worktree add --detach "$WT" HEAD -q || exit 2
+  trap 'git -C /repo worktree remove --force "$WT" >/dev/null 2>&1; rm -rf "$WT"' EXIT
+fi
 cd "$WT" || exit 2
 git checkout -q -- . ; git status --short | grep -v '^??' && { echo "worktree not clean"; exit 2; }
 echo "== clean: demo"; (cd "$WT" && timeout 600 /venv/bin/python "$DEMO" >/tmp/seed_demo_clean.txt 2>&1; echo "exit $?")
-git apply "$PATCH" || { echo "patch does not apply"; exit 2; }
+git apply "$PATCH" 2>/dev/null || git apply --3way "$PATCH" >/dev/null 2>&1 || { echo "patch does not apply"; exit 2; }
 echo "== patched: demo"; (cd "$WT" && timeout 600 /venv/bin/python "$DEMO" >/tmp/seed_demo_patched.txt 2>&1; echo "exit $?")
 echo "== patched: baseline tests"; (cd "$WT" && timeout 1200 /venv/bin/python -m pytest tests -q -p no:cacheprovider -n 8 --timeout=900 2>&1 | tail -1)
 echo "== patched: ./check $P --tier quick"
